@@ -696,6 +696,17 @@ def oracle(case, res):
         return 'harness:badcase'
     if t[0] == 'A':
         return oracle_append(t, res)
+    if t[0] == 'B':
+        # bank status of PGN 127501: item i (1..28) occupies bits 2(i-1), 2(i-1)+1; setting it changes nothing else; other indices are refused
+        b, s, i = int(t[1], 16), int(t[2]), int(t[3])
+        rs = res.split()
+        want = b if not (1 <= i <= 28) else (b & ~(3 << (2 * (i - 1)))) | (s << (2 * (i - 1)))
+        gets = ''.join(str((want >> (2 * (j - 1))) & 3) if 1 <= j <= 28 else '3' for j in range(30))
+        if len(rs) != 3 or int(rs[1], 16) != want:
+            return 'PGN127501.bank-status.set:item %d := %d on %016x gives %s, expected %016x' % (i, s, b, rs[1] if len(rs) > 1 else '-', want)
+        if rs[2] != gets:
+            return 'PGN127501.bank-status.get:items of %016x read as %s, expected %s' % (want, rs[2], gets)
+        return None
     if t[0] == 'R':
         s, p = FN[t[1]], FN[t[2]]
         n = int(t[3])
@@ -925,7 +936,10 @@ def check(run, replay=None):
             m = re.match(r'k\S+ A \S+ S (\d+) \d+ \d+ \d+ (\S+)', rr)
             if m:
                 payloads.setdefault(int(m.group(1)), []).insert(0, m.group(2))
-        cases = vlib.corpus_lines('C05') + gen(run.seed, run.tier) + acases + gen_parser_cases(run.seed, run.tier, payloads)
+        rb = random.Random(run.seed * 7919 + 127501)
+        bcases = ['B %016x %d %d' % (rb.choice([0, (1 << 64) - 1, 0x5555555555555555, 0xaaaaaaaaaaaaaaaa, rb.getrandbits(64)]), s, i)
+                  for i in list(range(0, 31)) + [255, 128] for s in range(4)] + ['B %016x %d %d' % (rb.getrandbits(64), rb.randrange(4), rb.randint(1, 28)) for _ in range(200)]
+        cases = vlib.corpus_lines('C05') + gen(run.seed, run.tier) + acases + gen_parser_cases(run.seed, run.tier, payloads) + bcases
     cases = cap_undefined(run, cases)
     run.cov['rule'] = ('per setter/parser pair (base x base, and every alias with its partner): argument tuples from per-argument pools - integers: type minimum/maximum, 0, 1, every '
                        'enumerator, every bit pattern of packed fields of <= 6 bits, first values that do not fit the field, single bits, alternating patterns, random; scaled doubles: the codes '
